@@ -109,10 +109,16 @@ SYNTH = {
     "eb": dict(kind="audio", durations=[44100] * 4, seed=20, track_id=4, encrypted=True),
     "vz": dict(kind="video", durations=[960] * 4, seed=17, track_id=1, lang="zzz"),
     "s1": dict(kind="video", durations=[960], seed=18, track_id=1),          # one fragment only
+    # shapes: the minimum of two media segments with unequal durations; NTSC timescale with a first decode time
+    # that is not 0 and a short last segment; audio whose track id is the one the text fixture `ft` uses
+    "v3": dict(kind="video", durations=[960, 480], seed=21, track_id=1),
+    "vn": dict(kind="video", timescale=30000, durations=[60060, 60060, 30030], first_decode_time=1001, seed=22,
+               track_id=1, with_sidx=True, with_styp=True),
+    "a4": dict(kind="audio", durations=[44100] * 3, seed=23, track_id=4, with_tfdt=False),
 }
 FIXTURES = {"ft": "bbb/bbb_t1.mp4", "fa": "bbb/bbb_a1.mp4", "fv": "bbb/bbb_v7.mp4", "fe": "bbb/bbb_a1_enc.mp4"}
 KINDS = list(SYNTH) + ["jk", "em"] + list(FIXTURES)
-MIME = {"a1": "audio/mp4", "ea": "audio/mp4", "eb": "audio/mp4", "fa": "audio/mp4", "fe": "audio/mp4", "ft": "application/mp4"}
+MIME = {"a4": "audio/mp4", "a1": "audio/mp4", "ea": "audio/mp4", "eb": "audio/mp4", "fa": "audio/mp4", "fe": "audio/mp4", "ft": "application/mp4"}
 
 
 @functools.lru_cache(maxsize=None)
